@@ -591,7 +591,14 @@ def c08(m, o):
     p = {k: float(Fraction(v)) for k, v in (o.get("params") or {}).items()}
     viol, checks = [], 0
     solver = o.get("solver", "euler")
-    m.run(p, solver=solver, jit=False, rebuild=True)
+    if o.get("prior_params"):
+        # the runner is built and run with other parameter values first: the outputs of the second run
+        # must be the definitions applied with the parameters of the second run
+        p_prior = {k: float(Fraction(v)) for k, v in o["prior_params"].items()}
+        m.run(p_prior, solver=solver, jit=False, rebuild=True)
+        m.run(p, solver=solver, jit=False)
+    else:
+        m.run(p, solver=solver, jit=False, rebuild=True)
     out = np.asarray(m.outputs, dtype=float)
     D = {k: np.asarray(v, dtype=float) for k, v in m.derived_outputs.items()}
     if not np.isfinite(out).all():
@@ -652,9 +659,139 @@ def c08(m, o):
     return {"checks": checks, "violations": viol[:10]}
 
 
+from progutil import subst_prog as _subst_prog, params_in as _params_in  # noqa: E402
+
+
+def c09(m, o):
+    """literal vs parameter builds, every dyn/frozen partition, defaults, reported input parameters"""
+    import itertools
+    import impl
+    from fractions import Fraction
+    prog = o["program"]
+    vals = o["params"]
+    p = {k: float(Fraction(v)) for k, v in vals.items()}
+    viol, checks = [], 0
+    solver = o.get("solver", "euler")
+
+    def outs(model):
+        return np.asarray(model.outputs, dtype=float), {k: np.asarray(v, dtype=float) for k, v in model.derived_outputs.items()}
+
+    def same(a, b, what):
+        (oa, da), (ob, db) = a, b
+        if not np.isfinite(oa).all():
+            return
+        scale = 1 + np.abs(oa).max()
+        if oa.shape != ob.shape or np.abs(oa - ob).max() > 1e-9 * scale:
+            viol.append("%s: outputs differ by %.3g" % (what, np.abs(oa - ob).max() if oa.shape == ob.shape else -1))
+        for k in da:
+            if k not in db or np.abs(da[k] - db[k]).max() > 1e-9 * (1 + np.abs(da[k]).max()):
+                viol.append("%s: derived output %s differs" % (what, k))
+
+    used = sorted(_params_in(prog["ops"], set()))
+    m.run(p, solver=solver, jit=False, rebuild=True)
+    ref = outs(m)
+    # 1. literal build
+    lit, err, why = impl.build(_subst_prog(dict(prog, obs=[]), vals))
+    checks += 1
+    if err is not None:
+        # literal splits are validated (must sum to one), parameterised ones are not: out of the domain
+        pass
+    else:
+        lit.run({}, solver=solver, jit=False, rebuild=True)
+        same(ref, outs(lit), "literal values instead of named parameters")
+    # 2. reported input parameters
+    checks += 1
+    reported = sorted(m.get_input_parameters())
+    if not set(reported) <= set(used):
+        viol.append("get_input_parameters() = %s reports parameters that do not occur in the definition %s" % (reported, used))
+    # a parameter that occurs but is not reported (e.g. in an adjustment that a later Overwrite replaces)
+    # must be neither needed nor able to influence the results
+    for k in sorted(set(used) - set(reported)):
+        m0, _, _ = impl.build(dict(prog, obs=[]))
+        checks += 1
+        try:
+            m0.run({q: v for q, v in p.items() if q != k}, solver=solver, jit=False)
+            same(ref, outs(m0), "omitting the unreported parameter %s" % k)
+        except BaseException as e:  # noqa
+            viol.append("parameter %s is not reported by get_input_parameters() but running without it raises %r" % (k, e))
+    used = reported
+    # 3. every partition into build-time-fixed and run-time-supplied
+    subsets = [list(c) for r in range(len(used) + 1) for c in itertools.combinations(used, r)]
+    for dyn in subsets[: (64 if o.get("exhaustive") else 8)]:
+        m2, _, _ = impl.build(dict(prog, obs=[]))
+        base = {k: v for k, v in p.items() if k not in dyn}
+        try:
+            r = m2.get_runner(base, dyn_params=dyn, jit=False, solver=solver)
+            r.run({k: p[k] for k in dyn})
+        except BaseException as e:  # noqa
+            viol.append("partition dyn=%s raises %r" % (dyn, e))
+            continue
+        checks += 1
+        same(ref, outs(m2), "partition dyn=%s" % dyn)
+    # 4. defaults fill in omitted values; supplied values win
+    if used:
+        m3, _, _ = impl.build(dict(prog, obs=[]))
+        wrong = {k: v * 3 + 1 for k, v in p.items()}
+        half = used[: max(1, len(used) // 2)]
+        m3.set_default_parameters({**{k: wrong[k] for k in half}, **{k: p[k] for k in used if k not in half}})
+        m3.run({k: p[k] for k in half}, solver=solver, jit=False)
+        checks += 1
+        same(ref, outs(m3), "defaults for %s, supplied %s" % ([k for k in used if k not in half], half))
+        m4, _, _ = impl.build(dict(prog, obs=[]))
+        m4.set_default_parameters({k: p[k] for k in used})
+        r4 = m4.get_runner({}, dyn_params=half, jit=False, solver=solver)
+        r4.run({k: p[k] for k in half})
+        checks += 1
+        same(ref, outs(m4), "defaults-not-merged: frozen parameters taken from the defaults in get_runner")
+    return {"checks": checks, "violations": viol[:10]}
+
+
+def c10(m, o):
+    """no stale values: a runner evaluated at a sequence of (t, x) points gives, at each point, what a
+    freshly built model gives there; raw flow outputs and computed values along a trajectory equal the
+    one_step values at (times[i], outputs[i])"""
+    import impl
+    from fractions import Fraction
+    from jax import numpy as jnp
+    p = {k: float(Fraction(v)) for k, v in (o.get("params") or {}).items()}
+    viol, checks = [], 0
+    runner = m.get_runner(p, jit=False)
+    pts = [(float(Fraction(t)), [float(Fraction(v)) for v in x]) for t, x in o["points"]]
+    seq = [np.asarray(runner.impl_dict["one_step"](p, t, jnp.array(x)).flow_rates, dtype=float) for t, x in pts]
+    for (t, x), got in zip(pts, seq):
+        fresh, _, _ = impl.build(dict(o["program"], obs=[]))
+        r2 = fresh.get_runner(p, jit=False)
+        exp = np.asarray(r2.impl_dict["one_step"](p, t, jnp.array(x)).flow_rates, dtype=float)
+        checks += 1
+        if got.shape != exp.shape or not np.array_equal(np.nan_to_num(got), np.nan_to_num(exp)):
+            viol.append("one_step at t=%r after other evaluations differs from a fresh runner: %s vs %s" % (t, got[:4], exp[:4]))
+    # along a trajectory
+    m.run(p, solver=o.get("solver", "euler"), jit=False, rebuild=True)
+    out = np.asarray(m.outputs, dtype=float)
+    if np.isfinite(out).all():
+        res = m._runner.function(parameters={**(m.get_default_parameters() or {}), **p})
+        runner = m.get_runner(p, jit=False)
+        for i, (t, row) in enumerate(zip(m.times, out)):
+            fr = np.asarray(runner.impl_dict["one_step"](p, float(t), jnp.array(row)).flow_rates, dtype=float)
+            for rq in o.get("raw_flows", []):
+                idx = [j for j, f in enumerate(m.flows) if f.name == rq["flow_name"]]
+                checks += 1
+                val = np.asarray(m.derived_outputs[rq["name"]], dtype=float)[i]
+                if abs(val - fr[idx].sum()) > 1e-9 * (1 + abs(val)):
+                    viol.append("raw flow output %s at row %d (t=%r) = %r, rate at the current time and state = %r" % (rq["name"], i, t, val, fr[idx].sum()))
+            for name, e in (o.get("cvs") or {}).items():
+                if name in m.derived_outputs:
+                    checks += 1
+                    val = float(np.asarray(m.derived_outputs[name])[i])
+                    exp = _pyexpr(e, p, float(t), np.where(row < 0, 0.0, row))
+                    if abs(val - exp) > 1e-9 * (1 + abs(exp)):
+                        viol.append("computed value %s at row %d = %r, evaluated at the current time and state = %r" % (name, i, val, exp))
+    return {"checks": checks, "violations": viol[:10]}
+
+
 ORACLES = {"c01": c01, "c02": c02}
 MODEL_ORACLES = {"c02_traj": c02_traj, "c13": c13, "c12": c12, "c12_dates": c12_dates,
-                 "c07": c07, "c07_closed": c07_closed, "c16": c16, "c14": c14, "c08": c08}
+                 "c07": c07, "c07_closed": c07_closed, "c16": c16, "c14": c14, "c08": c08, "c09": c09, "c10": c10}
 
 
 def run_oracle(m, o):
